@@ -262,6 +262,9 @@ type World struct {
 	// FirstOutKind1, when > 0, is 1 + the script kind of output 0 of the
 	// transactions added next (the other outputs use the kind given to Add).
 	FirstOutKind1 int
+	// TxVersion, when != 0, is the version of the transactions added next
+	// (default 1; BIP68 relative locks apply from version 2).
+	TxVersion int32
 }
 
 // NewWorld starts an empty universe.
@@ -308,6 +311,9 @@ func (w *World) resolve(from string) wire.OutPoint {
 func (w *World) Add(name string, ins []I, nOut int, outKind int, fee int64) *UTx {
 	b := w.B
 	tx := wire.NewMsgTx(1)
+	if w.TxVersion != 0 {
+		tx.Version = w.TxVersion
+	}
 	ref := &refpool.Tx{Name: name, Fee: fee}
 	var total int64
 	prevs := map[wire.OutPoint]*wire.TxOut{}
@@ -549,6 +555,26 @@ func WitWorld(b *Base) *World {
 		panic("SW2 does not beat SW's fee rate")
 	}
 	w.MineSets = [][]string{{"SW"}}
+	w.ReorgSets = [][]string{{}}
+	return w.Seal()
+}
+
+// LockWorld: version-2 transactions with BIP68 relative locks on outputs of an
+// unconfirmed parent.  LP is the parent; LC spends LP:0 with a 1-block relative
+// lock (it cannot share a block with LP, so it must stay out of the pool while
+// LP is unconfirmed and may enter once LP is mined); LD spends LP:1 with a
+// zero lock (may share a block with its parent); LE spends LD:0 with a 2-block
+// lock.  The "next block" invariant decides: whatever the pool admits must
+// connect as one block.
+func LockWorld(b *Base) *World {
+	w := NewWorld(b, "locks")
+	w.TxVersion = 2
+	w.Add("LP", []I{{"K2", Final}}, 2, KTrue, 3000)
+	w.Add("LC", []I{{"LP:0", 1}}, 2, KTrue, 2000)
+	w.Add("LD", []I{{"LP:1", 0}}, 2, KTrue, 2500)
+	w.Add("LE", []I{{"LD:0", 2}}, 2, KTrue, 1500)
+	w.TxVersion = 0
+	w.MineSets = [][]string{{"LP"}, {"LP", "LD"}}
 	w.ReorgSets = [][]string{{}}
 	return w.Seal()
 }
